@@ -255,10 +255,13 @@ def o_fits(mol, link, pl):
             continue
         anchor = pl[frm]
         for nb in mol[anchor]:
-            shift = attrs.get('order', 0)
-            if isinstance(shift, bool) or not isinstance(shift, int):
+            # orders are positions relative to the reference residue of the link, for the anchor
+            # and for the partner alike
+            rel = o_order_rel(link.nodes[frm].get('order', 0), mol.nodes[anchor]['resid'],
+                              attrs.get('order', 0), mol.nodes[nb]['resid'])
+            if rel is None:
                 return None
-            if mol.nodes[nb]['resid'] == mol.nodes[anchor]['resid'] + shift and o_atom_ok(mol.nodes[nb], attrs):
+            if rel and o_atom_ok(mol.nodes[nb], attrs):
                 return False
     if link.patterns:
         found = False
@@ -843,7 +846,9 @@ def gen_link(rng, mol, ninter=None):
         frm = rng.choice(names) if rng.random() < 0.93 else 'nowhere'
         to = {'atomname': rng.choice(ATOMNAMES)}
         if rng.random() < 0.8:
-            to['order'] = rng.choice([0, 1, -1, 1, -1, 2])
+            to['order'] = rng.choice([0, 1, -1, 1, -1, 2, -2] + ORDERS)
+        if rng.random() < 0.02:
+            to['order'] = rng.choice(BAD_ORDERS[:6])
         if rng.random() < 0.2:
             to['resname'] = Choice(rng.sample(RESNAMES, 2))
         link.non_edges.append([frm, to])
@@ -1141,6 +1146,20 @@ def corpus_cases():
     # non-edge towards the next residue (mutant m05b)
     out.append(('m', chain([1, 2, 3]), mk([('BB', {'atomname': 'BB', 'order': 0})], non_edges=[['BB', {'atomname': 'BB', 'order': 1}]])))
     out.append(('m', chain([1, 2, 4]), mk([('BB', {'atomname': 'BB', 'order': 0})], non_edges=[['BB', {'atomname': 'BB', 'order': -1}]])))
+    # fixed findings F-C05-2 / F-C05-3: non-edge partner with a '>' prefix; anchor with its own order
+    l5 = mk([('SC1', {'atomname': 'SC1', 'order': 0}), ('BB', {'atomname': 'BB', 'order': 0}), ('SC2', {'atomname': 'SC2', 'order': 0})],
+            [('SC1', 'BB'), ('BB', 'SC2')], non_edges=[['BB', {'order': '>', 'atomname': 'BB'}]])
+    for r3 in (2, 0):
+        mol = Molecule(force_field=ff)
+        mol.meta = {}
+        for k_, (nm, rid) in enumerate([('BB', 1), ('SC1', 1), ('SC2', 1), ('BB', r3)]):
+            mol.add_node(k_, atomname=nm, resid=rid, resname='ALA', atype='P', position=np.array([0.1 * k_, 0.0, 0.0]))
+        mol.add_edges_from([(0, 1), (0, 2), (0, 3)])
+        out.append(('m', mol, l5))
+    l6 = mk([('BB', {'atomname': 'BB', 'order': 0}), ('+BB', {'atomname': 'BB', 'order': 1})], [('BB', '+BB')],
+            non_edges=[['+BB', {'atomname': 'BB', 'order': 2}]])
+    out.append(('m', chain([1, 2, 3]), l6))
+    out.append(('m', chain([1, 2, 4, 5]), l6))
     # two patterns, only one holds (any -> all)
     mol = chain([1, 2, 3])
     mol.nodes[0]['cgsecstruct'] = 'H'
